@@ -239,11 +239,11 @@ func init() {
 			}
 			return true
 		})
-		if cbParam == "" || jsonpFormat == "" {
-			return fmt.Errorf("jsonHandler: callback query parameter / JSONP format not found")
+		if cbParam == "" {
+			return fmt.Errorf("jsonHandler: callback query parameter not found")
 		}
 		fmt.Fprintf(w, "/-- `jsonHandler`: content type with a callback, and without. -/\ndef callbackContentType : String := %s\ndef jsonContentType : String := %s\n", cts[0], cts[1])
-		fmt.Fprintf(w, "/-- `jsonHandler`: query parameter that selects JSONP, and the `fmt.Fprintf` format that wraps the same bytes. -/\ndef callbackParam : String := %s\ndef jsonpFormat : String := %s\n", leanStr(cbParam), leanStr(jsonpFormat))
+		fmt.Fprintf(w, "/-- `jsonHandler`: query parameter that selects JSONP, and the `fmt.Fprintf` format that wraps the same bytes. -/\ndef callbackParam : String := %s\n/-- `none`: the wrapped body is not written through one `fmt.Fprintf` format literal (its shape is then decided by the\ncorrespondence run alone, which compares the bytes with `callback(json)`). -/\ndef jsonpFormat : Option String := %s\n", leanStr(cbParam), map[bool]string{true: "some " + leanStr(jsonpFormat), false: "none"}[jsonpFormat != ""])
 		fmt.Fprintf(w, "/-- `jsonHandler`: `json.Marshal` failing returns `Error(ctx, err)` (nothing has been written yet). -/\ndef marshalFailureGoesToError : Bool := %v\n", marshalFailToError)
 
 		// ---- envelope / error body keys -----------------------------------------------
